@@ -1,21 +1,3 @@
-"""C08 -- the four semirings obey the semiring laws on their whole carrier."""
-from vf import core
-from vf.semvc import laws
-from props._common import add_bounded
-
-
-def run_obligations(ctx):
-    rep = laws.run(ctx)
-    rep.property_id = "C08"
-    return rep
-
-
-def run(ctx):
-    rep = run_obligations(ctx)
-    rep.level = "other"
-    rep.explanation = ("Law clauses: proof obligations (semvc) on the scalar meaning of the real method bodies of "
-                       "fggs/semirings.py, over the reals extended with +-inf/NaN, discharged by z3 nonlinear "
-                       "arithmetic. Representation clause (Tensor vs PatternedTensor) and exact-IEEE laws: bounded "
-                       "stand-in, never counted as proved.")
-    add_bounded(rep, ctx, "C08")
-    return rep
+"""C08 -- see props/_common.SPEC and DESIGN.md section 5."""
+from props._common import make
+run, run_obligations = make("C08")
